@@ -7,6 +7,7 @@ state at the start of the quantum (`c.latest = []`: true initially and, by
 `C17_flush_resets`, after every flush).
 -/
 import SerfProofs.Lemmas.MemberCoalesce
+import SerfModel.Gen.Coalescers
 namespace SerfProofs.C17
 open SerfModel SerfModel.MemberCoalesce SerfProofs.MemberCoalesce
 
@@ -127,6 +128,93 @@ theorem C17_app_sees_latest_init (quanta : List (List MEv)) (n : String) :
     alookup (runQuanta {} quanta).1.lastEvents n = (lastFor quanta.flatten n).map (·.kind) := by
   rw [C17_app_sees_latest quanta {} rfl n]
   cases lastFor quanta.flatten n <;> simp
+
+/-- The pending set is empty at the start of every quantum of a history. -/
+theorem runQuanta_latest_nil (quanta : List (List MEv)) : ∀ (c : MC), c.latest = [] → (runQuanta c quanta).1.latest = [] := by
+  induction quanta with
+  | nil => intro c hc; simpa [runQuanta] using hc
+  | cons q qs ih =>
+    intro c _
+    simp only [runQuanta]
+    exact ih _ (C17_flush_resets c q)
+
+/-- **Closed form over the whole history** (no hypothesis on the coalescer: it starts fresh).
+After any earlier quanta `pre`, the latest event `e` of member `n` in the next quantum `q` is
+reported at its flush iff its kind differs from the kind of the member's latest event in all of
+`pre`, or it is an update.  Nothing else is ever reported for `n` at that flush
+(`C17_flush_latest`, `C17_flush_nodup`). -/
+theorem C17_history_report_iff (pre : List (List MEv)) (q : List MEv) (n : String) (e : MEv)
+    (he : lastFor q n = some e) :
+    e ∈ (runQuantum (runQuanta {} pre).1 q).2 ↔
+      ¬ ((lastFor pre.flatten n).map (·.kind) = some e.kind ∧ e.kind ≠ .update) := by
+  rw [C17_flush_iff _ q (runQuanta_latest_nil pre {} rfl) n e he, C17_app_sees_latest_init]
+
+/-- … and every flush of every history reports each member at most once, with the latest event of
+its quantum. -/
+theorem C17_history_flush_sound (pre : List (List MEv)) (q : List MEv) :
+    ((runQuantum (runQuanta {} pre).1 q).2.map (·.name)).Nodup ∧
+    ∀ o ∈ (runQuantum (runQuanta {} pre).1 q).2, lastFor q o.name = some o :=
+  ⟨C17_flush_nodup _ q (runQuanta_latest_nil pre {} rfl),
+   fun o ho => C17_flush_latest _ q (runQuanta_latest_nil pre {} rfl) o ho⟩
+
+-- C17_history_report_iff: a join after a join (in an earlier quantum) is not reported, an update is
+example : (runQuantum (runQuanta {} [[⟨.join, "a", 1⟩], []]).1 [⟨.failed, "a", 2⟩, ⟨.join, "a", 3⟩, ⟨.update, "b", 4⟩]).2
+    = [⟨.update, "b", 4⟩] := by decide
+
+/-! ### Ties to serf/coalesce_member.go (regenerated on every run: extract/coalescers.go) -/
+
+section SourceTies
+open SerfModel.CoalesceShapes SerfModel.Gen.Coalescers
+
+/-- **The suppression guard of `Flush`, evaluated.**  The condition in
+`if <cond> { continue }` — as it stands in the source — is true exactly when the member has an
+entry in `lastEvents` (`ok`), its kind equals the pending kind, and the pending kind is not an
+update: the model's `suppressed`. -/
+theorem C17_suppress_cond_tie (ok : Bool) (previous cur : Kind) :
+    memberSuppressCond.eval kindOps (memberEnvB ok) (memberEnvV previous cur) =
+      some (ok && previous == cur && cur != .update) := by
+  cases ok <;> cases previous <;> cases cur <;> rfl
+
+/-- … hence the model's `suppressed` is the source's guard, for every `lastEvents` and event. -/
+theorem C17_suppressed_is_source_guard (last : List (String × Kind)) (e : MEv) :
+    some (suppressed last e) =
+      memberSuppressCond.eval kindOps (memberEnvB (alookup last e.name).isSome)
+        (memberEnvV ((alookup last e.name).getD e.kind) e.kind) := by
+  rw [C17_suppress_cond_tie]
+  cases h : alookup last e.name with
+  | none => simp [suppressed, h]
+  | some k => simp [suppressed, h]
+
+/-- `Coalesce` stores every member of the event unconditionally under the member's name, with the
+event's type and a copy of the member (`coalesce c e = ainsert … e.name e`): no early out, no
+look at `lastEvents`, no merging with what is pending. -/
+theorem C17_coalesce_stores_unconditionally :
+    memberCoalesceStmts = ["e := raw.(MemberEvent)", "for _, m := range e.Members"] ∧
+    memberCoalesceLoopBody = ["c.latestEvents[m.Name] = coalesceEvent{Type: e.Type, Member: &m}"] := by decide
+
+/-- The loop of `Flush` over `latestEvents`: look up the last sent kind, skip if suppressed,
+otherwise record the pending kind in `lastEvents` (unconditionally, for every kind — `flushLoop`'s
+`ainsert last e.name e.kind`) and add the member to the event of its kind. -/
+theorem C17_flush_loop_shape :
+    memberFlushLoopBody =
+      ["previous, ok := c.lastEvents[name]", "if SUPPRESS { continue }", "c.lastEvents[name] = cevent.Type",
+       "newEvent, ok := events[cevent.Type]",
+       "if !ok { newEvent = &MemberEvent{Type: cevent.Type} events[cevent.Type] = newEvent }",
+       "newEvent.Members = append(newEvent.Members, *cevent.Member)"] := by decide
+
+/-- `Flush` as a whole: one pass over `latestEvents`, every grouped event is sent, and
+`latestEvents` is replaced by an empty map (`flush`'s `latest := []`). -/
+theorem C17_flush_shape :
+    memberFlushStmts =
+      ["events := make(map[EventType]*MemberEvent)", "for name, cevent := range c.latestEvents",
+       "for _, event := range events { outCh <- *event }", "c.latestEvents = make(map[string]coalesceEvent)"] := by decide
+
+/-- `Handle` accepts exactly the five member event kinds of the model. -/
+theorem C17_handle_kinds :
+    memberHandled.map kindOfGo = [some .join, some .leave, some .failed, some .update, some .reap] ∧
+    memberHandleDefaultFalse = true := by decide
+
+end SourceTies
 
 -- Non-vacuity / regression witness: an update is re-reported only when a new one arrived.
 example : (runQuanta {} [[⟨.join, "a", 1⟩, ⟨.update, "a", 2⟩, ⟨.join, "b", 1⟩], [], [⟨.update, "a", 3⟩, ⟨.join, "b", 4⟩]]).2
